@@ -1,6 +1,7 @@
 /- driver engine `led`: ledger model + chain spec behind the line protocol (see go/cmd/harness/eng_led.go) -/
 import MW.Model.Ledger
 import MW.Spec.Chain
+import MW.Spec.Pending
 namespace MW.Drv.Led
 open MW MW.Model.Ledger
 
@@ -14,6 +15,7 @@ structure St where
   store : Store := { sync := [(0, "G")] }
   vol : Vol := {}
   specChain : List Block := [⟨"G", "", 0, []⟩]    -- the chain the wallet has been told about (spec side)
+  specPend : List Tx := []                        -- the pending set of MW.Spec.Pending (spec side)
   deriving Inhabited
 
 def init : St := {}
@@ -40,11 +42,19 @@ def parseOut (s : String) : Option Out :=
 
 def ctx (st : St) : Ctx := { p := st.p, own := st.own, wallets := st.wallets, node := st.node }
 
+/-- spec-side environment: addresses of ready wallets, transactions by id -/
+def specEnv (st : St) : Spec.Pending.Env :=
+  let ready := readyWallets st.store st.wallets
+  { own := st.own.filter (fun e => ready.contains e.2.1), src := AMap.get st.txs }
+
 def showBal (b : Balance) : String := s!"{b.total} {b.spendable} {b.wStaking} {b.wBinding}"
 
-/-- GetUtxo item -/
-def utxoItem (sync : Nat) (c : Coin) : String :=
-  s!"{c.tx}:{c.idx}:{c.cred.amt}:{c.blk.height}:{c.cred.maturity}:{(confs sync c.blk.height) % 2^32}@{c.cred.sh}"
+/-- GetUtxo item as compared by the harness; `MW.Props.C01.ledger_observed` is about exactly these records
+    (`Spec.Chain.obsM` for the model, `Spec.Chain.obsS` for the spec) -/
+def showObs (o : Spec.Chain.CoinObs) : String :=
+  s!"{o.tx}:{o.idx}:{o.amt}:{o.height}:{o.maturity}:{o.confs}@{o.addr}"
+
+def utxoItem (sync : Nat) (c : Coin) : String := showObs (Spec.Chain.obsM sync c)
 
 /-- wallet.GetAddresses merge logic for one issued address (see wallet.go): the standard listing holds
     every standard record (used if that record or the staking record of the same key is used) plus a
@@ -118,17 +128,26 @@ def step (st : St) (args : List String) : St × String :=
     | none => (st, "bad-op")
     | some blk =>
       let (s', v', ok) := processBlock (ctx st) st.store st.vol blk
-      -- spec: the notification succeeds exactly when the block is on the node's best chain
+      -- spec (MW.Lemmas.LedgerReorg3.processBlock_total): the notification succeeds exactly when the block is
+      -- on the node's best chain (the wallet then follows that chain up to the block) or – a stale or
+      -- duplicate notification – still on the chain the wallet has been told about (the wallet then goes
+      -- back to that block); otherwise it fails and changes nothing
       let onChain : Bool := match st.node.blockAt blk.height with | some x => x.id == blk.id | none => false
-      let specChain := if onChain then st.node.chain.take (blk.height + 1) else st.specChain
-      ({ st with store := s', vol := v', specChain := specChain },
-        (if ok then "ok" else "err") ++ "\t" ++ (if onChain then "ok" else "err"))
+      let onSpec : Bool := match st.specChain[blk.height]? with | some x => x.id == blk.id | none => false
+      let specChain := if onChain then st.node.chain.take (blk.height + 1)
+                       else if onSpec then st.specChain.take (blk.height + 1) else st.specChain
+      let specPend := if onChain || onSpec then
+                        Spec.Pending.onChainMoved (specEnv st) st.specChain specChain st.specPend
+                      else st.specPend
+      ({ st with store := s', vol := v', specChain := specChain, specPend := specPend },
+        (if ok then "ok" else "err") ++ "\t" ++ (if onChain || onSpec then "ok" else "err"))
   | ["recvtx", t] =>
     match AMap.get st.txs t with
     | none => (st, "bad-op")
     | some tx =>
       let (s', v', ok) := recvTx (ctx st) st.store st.vol tx
-      ({ st with store := s', vol := v' }, if ok then "ok" else "err")
+      let specPend := Spec.Pending.onRecv (specEnv st) st.node.chain st.specChain st.specPend tx
+      ({ st with store := s', vol := v', specPend := specPend }, if ok then "ok" else "err")
   | ["restart"] =>
     let bh := (AMap.get st.store.sync st.store.syncedTo).getD "?"
     ({ st with vol := { best := ⟨st.store.syncedTo, bh⟩ } }, "ok")
@@ -147,17 +166,36 @@ def step (st : St) (args : List String) : St × String :=
     if !st.wallets.contains w then (st, "err\terr") else
     let m := joinSorted ((coinsOf st.store w).map (utxoItem st.store.syncedTo))
     let tip := st.specChain.length - 1
-    let sp := joinSorted ((Spec.Chain.coinsOfWallet (Spec.Chain.ledgerOf st.own st.specChain) w).filterMap (fun c =>
-      if c.amt = 0 then none else
-      let mat := if c.cb then st.p.cbMaturity else c.cls.maturity
-      some s!"{c.tx}:{c.idx}:{c.amt}:{c.height}:{mat}:{tip + 1 - c.height}@{c.addr}"))
+    let sp := joinSorted ((Spec.Chain.utxosOf st.own st.specChain w).map (fun c => showObs (Spec.Chain.obsS st.p tip c)))
     (st, m ++ "\t" ++ sp)
   | ["sbu", w] =>
-    if !st.wallets.contains w then (st, "err") else
-    (st, joinSorted ((coinsOf st.store w).filterMap (fun c =>
-      if spentByUnmined st.store c.tx c.idx then some s!"{c.tx}:{c.idx}" else none)))
+    if !st.wallets.contains w then (st, "err\terr") else
+    let m := joinSorted ((coinsOf st.store w).filterMap (fun c =>
+      if spentByUnmined st.store c.tx c.idx then some s!"{c.tx}:{c.idx}" else none))
+    let sp := joinSorted ((Spec.Pending.flagged st.own st.specChain st.specPend w).map (fun c => s!"{c.tx}:{c.idx}"))
+    (st, m ++ "\t" ++ sp)
   | ["pend"] =>
-    (st, joinSorted (st.store.pending.map (fun e => e.1 ++ ":r")))
+    (st, joinSorted (st.store.pending.map (fun e => e.1 ++ ":r")) ++ "\t" ++
+         joinSorted (st.specPend.map (fun t => t.id ++ ":r")))
+  | ["pins"] =>
+    let item (e : (TxId × Nat) × List TxId) := s!"{e.1.1}:{e.1.2}>" ++ "+".intercalate (e.2.mergeSort (fun a b => a ≤ b))
+    (st, joinSorted (st.store.pendIns.map item) ++ "\t" ++ joinSorted ((Spec.Pending.spenderIndex st.specPend).map item))
+  | ["pcred"] =>
+    (st, joinSorted (st.store.pendCred.map (fun e => s!"{e.1.1}:{e.1.2}:{e.2.amt}")) ++ "\t" ++
+         joinSorted ((Spec.Pending.pendingCredits (specEnv st) st.specPend).map (fun e => s!"{e.1}:{e.2.1}:{e.2.2}")))
+  | ["pgame"] =>
+    (st, joinSorted (st.store.pendGame.map (fun e =>
+           let (w, b, tx, vout) := e.1
+           s!"{w}:{if b then "b" else "s"}:{tx}:{vout}")) ++ "\t" ++
+         joinSorted ((Spec.Pending.pendingDeposits (specEnv st) st.specPend).map (fun d =>
+           s!"{d.1}:{if d.2.1.cls.isBinding then "b" else "s"}:{d.2.2.2.id}:{d.2.2.1}")))
+  | ["glog"] =>
+    -- raw dump of the mined deposit-history bucket; spec: the deposits of the chain (MW.Props.C10.deposit_once)
+    (st, joinSorted (st.store.game.map (fun e =>
+           let g := e.1
+           s!"{g.wallet}:{if g.binding then "b" else "s"}:{if g.withdrawn then "w" else "u"}:{g.tx}:{g.vout}:{g.height}")) ++ "\t" ++
+         joinSorted (st.wallets.flatMap (fun w => (Spec.Chain.deposits st.own st.specChain w).map (fun d =>
+           s!"{w}:{if d.cls.isBinding then "b" else "s"}:{if d.withdrawn then "w" else "u"}:{d.tx}:{d.idx}:{d.height}"))))
   | ["addrs", w] =>
     if !st.wallets.contains w then (st, "err\terr") else
     let mine := st.issued.filter (fun x => x.2.1 = w)
@@ -210,22 +248,35 @@ def step (st : St) (args : List String) : St × String :=
       | _ => none))
     (st, m ++ "\t" ++ sp)
   | ["hsbu", w] =>
-    if !st.wallets.contains w then (st, "err") else
-    (st, joinSorted (st.store.game.filterMap (fun e =>
+    if !st.wallets.contains w then (st, "err\terr") else
+    let m := joinSorted (st.store.game.filterMap (fun e =>
       let g := e.1
-      if g.wallet = w && !g.withdrawn && spentByUnmined st.store g.tx g.vout then some s!"{g.tx}:{g.vout}" else none)))
+      if g.wallet = w && !g.withdrawn && spentByUnmined st.store g.tx g.vout then some s!"{g.tx}:{g.vout}" else none))
+    let sp := joinSorted ((Spec.Pending.flaggedDeposits st.own st.specChain st.specPend w).map (fun d => s!"{d.tx}:{d.idx}"))
+    (st, m ++ "\t" ++ sp)
   | ["shistp", w] =>
-    if !st.wallets.contains w then (st, "err") else
+    if !st.wallets.contains w then (st, "err\terr") else
+    let sp := joinSorted ((Spec.Pending.pendingDeposits (specEnv st) st.specPend).filterMap (fun d =>
+      match d.2.1.cls with
+      | .stk f => if d.1 = w then some s!"{d.2.2.2.id}:{d.2.2.1}:{d.2.1.amt}:0:{f}:0@{d.2.1.addr}" else none
+      | _ => none))
     (st, joinSorted (st.store.pendGame.filterMap (fun e =>
       let (w', b, tx, vout) := e.1
       if w' = w && !b then
         match AMap.get st.store.pendCred (tx, vout) with
         | some c => some s!"{tx}:{vout}:{c.amt}:0:{(c.maturity + 2^32 - 1) % 2^32}:0@{c.sh}"
         | none => none
-      else none)))
+      else none)) ++ "\t" ++ sp)
   | ["bhistp", w] =>
-    if !st.wallets.contains w then (st, "err") else
-    (st, joinSorted (st.store.pendGame.filterMap (fun e =>
+    if !st.wallets.contains w then (st, "err\terr") else
+    let sp := joinSorted ((Spec.Pending.pendingDeposits (specEnv st) st.specPend).filterMap (fun d =>
+      let item (t : String) := s!"{d.2.2.2.id}:{d.2.2.1}:{d.2.1.amt}:0:0@{d.2.1.addr}>{t}"
+      if d.1 ≠ w then none else
+      match d.2.1.cls with
+      | .bindOld t => some (item t)
+      | .bindNew t => some (item t)
+      | _ => none))
+    (fun m => (st, m ++ "\t" ++ sp)) (joinSorted (st.store.pendGame.filterMap (fun e =>
       let (w', b, tx, vout) := e.1
       if w' = w && b then
         match AMap.get st.store.pending tx, AMap.get st.store.pendCred (tx, vout) with
